@@ -826,8 +826,8 @@ Section Handlers.
   Qed.
 
   (** a message from the network: its signatures are among those sent *)
-  Lemma deliver_good nd from m :
-    (forall s, In s (sigs_of m) -> In s B) -> Good B nd (deliver nd from m, []).
+  Lemma deliver_good nd from m fresh :
+    (forall s, In s (sigs_of m) -> In s B) -> Good B nd (deliver nd from m fresh, []).
   Proof.
     intros Hsig. unfold deliver. destruct (is_some (n_sealed nd)); [apply good_refl|].
     destruct (passes (verify_ok from m)) eqn:Ev0; cbn [negb]; [|apply good_refl].
@@ -860,13 +860,13 @@ Section Handlers.
 
   Lemma local_step_good nd ev :
     match ev with
-    | LNet from m => forall s, In s (sigs_of m) -> In s B
+    | LNet from m _ => forall s, In s (sigs_of m) -> In s B
     | LProc ord => NoDup ord
     | LTimer _ ord => NoDup ord
     | _ => True
     end -> Good B nd (local_step P self nd ev).
   Proof.
-    destruct ev as [from m|ord| |t ord|]; cbn [local_step]; intro H.
+    destruct ev as [from m fresh|ord| |t ord|]; cbn [local_step]; intro H.
     - apply deliver_good; exact H.
     - destruct (n_q nd) as [|m r] eqn:Eq; [apply good_refl|]. apply process_msg_good; assumption.
     - destruct (n_actions nd) as [|a r] eqn:Eq; [apply good_refl|]. apply do_action_good; assumption.
@@ -922,12 +922,12 @@ Section Global.
       destruct (lev_ok (c_net cfg) ev) eqn:Hok; [|discriminate].
       destruct (local_step P a (node_of cfg a) ev) as [nd' outs] eqn:Els. inversion Hstep; subst cfg'. clear Hstep.
       assert (Hpre : match ev with
-                     | LNet from m => forall s, In s (sigs_of m) -> In s (allsigs (c_net cfg))
+                     | LNet from m _ => forall s, In s (sigs_of m) -> In s (allsigs (c_net cfg))
                      | LProc ord => NoDup ord
                      | LTimer _ ord => NoDup ord
                      | _ => True
                      end).
-      { destruct ev as [from m|ord| |t ord|]; cbn [lev_ok] in Hok; try exact I.
+      { destruct ev as [from m fresh|ord| |t ord|]; cbn [lev_ok] in Hok; try exact I.
         - intros s Hs. eapply in_net_sigs; [|exact Hs]. apply (existsb_In pkt_eqb pkt_eqb_eq). exact Hok.
         - apply nodupb_NoDup; exact Hok.
         - apply nodupb_NoDup; exact Hok. }
@@ -1203,31 +1203,31 @@ Definition sched_unverified : list event :=
   [ EvLocal 0 LPropose; EvLocal 0 (LProc o4); EvLocal 1 LPropose; EvLocal 1 (LProc o4);
     EvByz (mkPkt 3 (MCommit 3 0 false X0 (3, X0) [(1, garb X0); (2, garb X0)]));
     EvByz (mkPkt 3 (MCommit 3 1 false X1 (3, X1) [(0, garb X1); (2, garb X1)]));
-    EvLocal 0 (LNet 3 (MCommit 3 0 false X0 (3, X0) [(1, garb X0); (2, garb X0)]));
+    EvLocal 0 (LNet 3 (MCommit 3 0 false X0 (3, X0) [(1, garb X0); (2, garb X0)]) false);
     EvLocal 0 (LProc o4); EvLocal 0 LAct;
-    EvLocal 1 (LNet 3 (MCommit 3 1 false X1 (3, X1) [(0, garb X1); (2, garb X1)]));
+    EvLocal 1 (LNet 3 (MCommit 3 1 false X1 (3, X1) [(0, garb X1); (2, garb X1)]) false);
     EvLocal 1 (LProc o4); EvLocal 1 LAct ].
 
 (** R2: every signature verifies; the faulty peer 3 proposes and commits its own block and is
     counted twice. 1 seals the leader's block, 2 seals the block of 3. *)
 Definition sched_double : list event :=
   [ EvLocal 0 LPropose; EvLocal 0 (LProc o4);
-    EvLocal 1 (LNet 0 (MProposal 0 0 0)); EvLocal 1 (LProc o4); EvLocal 1 (LProc o4); EvLocal 1 (LProc o4);
+    EvLocal 1 (LNet 0 (MProposal 0 0 0) false); EvLocal 1 (LProc o4); EvLocal 1 (LProc o4); EvLocal 1 (LProc o4);
     EvByz (mkPkt 3 (MCommit 3 0 false X0 (3, X0) []));
-    EvLocal 1 (LNet 3 (MCommit 3 0 false X0 (3, X0) [])); EvLocal 1 (LProc o4); EvLocal 1 LAct;
-    EvByz (mkPkt 3 (MProposal 3 0 3)); EvLocal 2 (LNet 3 (MProposal 3 0 3)); EvLocal 2 (LProc o4);
+    EvLocal 1 (LNet 3 (MCommit 3 0 false X0 (3, X0) []) false); EvLocal 1 (LProc o4); EvLocal 1 LAct;
+    EvByz (mkPkt 3 (MProposal 3 0 3)); EvLocal 2 (LNet 3 (MProposal 3 0 3) false); EvLocal 2 (LProc o4);
     EvLocal 2 (LTimer TPropose o4); EvLocal 2 LAct; EvLocal 2 (LProc o4); EvLocal 2 (LProc o4);
     EvByz (mkPkt 3 (MCommit 3 3 false X3 (3, X3) []));
-    EvLocal 2 (LNet 3 (MCommit 3 3 false X3 (3, X3) [])); EvLocal 2 (LProc o4); EvLocal 2 LAct ].
+    EvLocal 2 (LNet 3 (MCommit 3 3 false X3 (3, X3) []) false); EvLocal 2 (LProc o4); EvLocal 2 LAct ].
 
 (** R3: the faulty leader 0 signs two proposals; the tallies are keyed by the proposer's index
     and the hash in an endorse or commit message is never compared with the local proposal. *)
 Definition sched_equivocation : list event :=
   [ EvByz (mkPkt 0 (MProposal 0 0 0)); EvByz (mkPkt 0 (MProposal 0 1 0));
-    EvLocal 1 (LNet 0 (MProposal 0 0 0)); EvLocal 1 (LProc o4); EvLocal 1 (LProc o4); EvLocal 1 (LProc o4);
-    EvLocal 2 (LNet 0 (MProposal 0 1 0)); EvLocal 2 (LProc o4); EvLocal 2 (LProc o4); EvLocal 2 (LProc o4);
-    EvLocal 1 (LNet 2 (MCommit 2 0 false Y0 (2, Y0) [(2, (2, Y0))])); EvLocal 1 (LProc o4); EvLocal 1 LAct;
-    EvLocal 2 (LNet 1 (MCommit 1 0 false X0 (1, X0) [(1, (1, X0))])); EvLocal 2 (LProc o4); EvLocal 2 LAct ].
+    EvLocal 1 (LNet 0 (MProposal 0 0 0) false); EvLocal 1 (LProc o4); EvLocal 1 (LProc o4); EvLocal 1 (LProc o4);
+    EvLocal 2 (LNet 0 (MProposal 0 1 0) false); EvLocal 2 (LProc o4); EvLocal 2 (LProc o4); EvLocal 2 (LProc o4);
+    EvLocal 1 (LNet 2 (MCommit 2 0 false Y0 (2, Y0) [(2, (2, Y0))]) false); EvLocal 1 (LProc o4); EvLocal 1 LAct;
+    EvLocal 2 (LNet 1 (MCommit 1 0 false X0 (1, X0) [(1, (1, X0))]) false); EvLocal 2 (LProc o4); EvLocal 2 LAct ].
 
 (** R4: NO faulty peer. The leader 0 and the second proposer 1 both propose (1's back-off fired
     before 0's proposal arrived). 3 endorses and commits X1 after its proposal timeout; 2 commits X1
@@ -1235,30 +1235,30 @@ Definition sched_equivocation : list event :=
     seals X1. *)
 Definition sched_cross_vote : list event :=
   [ EvLocal 0 LPropose; EvLocal 0 (LProc o4); EvLocal 1 LPropose; EvLocal 1 (LProc o4);
-    EvLocal 3 (LNet 1 (MProposal 1 0 1)); EvLocal 3 (LProc o4); EvLocal 3 (LTimer TPropose o4); EvLocal 3 LAct;
+    EvLocal 3 (LNet 1 (MProposal 1 0 1) false); EvLocal 3 (LProc o4); EvLocal 3 (LTimer TPropose o4); EvLocal 3 LAct;
     EvLocal 3 (LProc o4); EvLocal 3 (LProc o4);
-    EvLocal 2 (LNet 1 (MProposal 1 0 1)); EvLocal 2 (LNet 3 (MEndorse 3 1 false X1 (3, X1)));
-    EvLocal 2 (LNet 0 (MProposal 0 0 0));
+    EvLocal 2 (LNet 1 (MProposal 1 0 1) false); EvLocal 2 (LNet 3 (MEndorse 3 1 false X1 (3, X1)) false);
+    EvLocal 2 (LNet 0 (MProposal 0 0 0) false);
     EvLocal 2 (LProc o4); EvLocal 2 (LProc o4); EvLocal 2 (LProc o4); EvLocal 2 (LProc o4); EvLocal 2 (LProc o4);
     EvLocal 2 LAct;
-    EvLocal 1 (LNet 0 (MProposal 0 0 0)); EvLocal 1 (LProc o4);
-    EvLocal 1 (LNet 2 (MEndorse 2 0 false X0 (2, X0))); EvLocal 1 (LProc o4);
-    EvLocal 0 (LNet 1 (MCommit 1 0 false X0 (1, X0) [(1, (1, X0)); (2, (2, X0))])); EvLocal 0 (LProc o4); EvLocal 0 LAct ].
+    EvLocal 1 (LNet 0 (MProposal 0 0 0) false); EvLocal 1 (LProc o4);
+    EvLocal 1 (LNet 2 (MEndorse 2 0 false X0 (2, X0)) false); EvLocal 1 (LProc o4);
+    EvLocal 0 (LNet 1 (MCommit 1 0 false X0 (1, X0) [(1, (1, X0)); (2, (2, X0))]) false); EvLocal 0 (LProc o4); EvLocal 0 LAct ].
 
 (** R5: the "for empty" verdict of getCommitConsensus is a count over the commit messages seen so
     far (of any proposer), not a quorum: 0 seals the leader's block, 1 seals its empty block. *)
 Definition o5 : list N := [3; 2; 0; 1].
 Definition sched_empty_flag : list event :=
   [ EvLocal 0 LPropose; EvLocal 0 (LProc o4);
-    EvLocal 2 (LNet 0 (MProposal 0 0 0)); EvLocal 2 (LProc o4); EvLocal 2 (LTimer TEndorse o4);
+    EvLocal 2 (LNet 0 (MProposal 0 0 0) false); EvLocal 2 (LProc o4); EvLocal 2 (LTimer TEndorse o4);
     EvLocal 2 (LProc o4); EvLocal 2 (LProc o4); EvLocal 2 (LProc o4);
     EvByz (mkPkt 3 (MEndorse 3 0 true X0e (3, X0e))); EvByz (mkPkt 3 (MCommit 3 0 true X0e (3, X0e) []));
     EvByz (mkPkt 3 (MCommit 3 0 false X0 (3, X0) []));
-    EvLocal 1 (LNet 0 (MProposal 0 0 0)); EvLocal 1 (LNet 3 (MEndorse 3 0 true X0e (3, X0e)));
-    EvLocal 1 (LNet 3 (MCommit 3 0 true X0e (3, X0e) [])); EvLocal 1 (LNet 2 (MEndorse 2 0 true X0e (2, X0e)));
+    EvLocal 1 (LNet 0 (MProposal 0 0 0) false); EvLocal 1 (LNet 3 (MEndorse 3 0 true X0e (3, X0e)) false);
+    EvLocal 1 (LNet 3 (MCommit 3 0 true X0e (3, X0e) []) false); EvLocal 1 (LNet 2 (MEndorse 2 0 true X0e (2, X0e)) false);
     EvLocal 1 (LProc o5); EvLocal 1 (LProc o5); EvLocal 1 (LProc o5); EvLocal 1 (LProc o5);
     EvLocal 1 (LProc o5); EvLocal 1 (LProc o5); EvLocal 1 LAct;
-    EvLocal 0 (LNet 2 (MCommit 2 0 false X0 (2, X0) [(2, (2, X0))])); EvLocal 0 (LNet 3 (MCommit 3 0 false X0 (3, X0) []));
+    EvLocal 0 (LNet 2 (MCommit 2 0 false X0 (2, X0) [(2, (2, X0))]) false); EvLocal 0 (LNet 3 (MCommit 3 0 false X0 (3, X0) []) false);
     EvLocal 0 (LProc o4); EvLocal 0 (LProc o4); EvLocal 0 LAct ].
 
 Definition hyp_but_V P cfg := no_doubleb P cfg && empty_freeb P cfg && single_votesb P cfg && no_equivocationb P cfg.
@@ -1298,3 +1298,215 @@ Lemma safety_refuted_lemma : ~ safety.
 Proof.
   intro H. apply safety_unverified_refuted_lemma. intros P cfg Hwf Hr _. exact (H P cfg Hwf Hr eq_refl).
 Qed.
+
+(** * Local rules: one commitment and one endorsement per flag per node and height; a seal is final *)
+Definition jf (nd : node) := (n_committed nd, n_endorsed nd, n_endorsed_empty nd, n_signed nd).
+
+Definition J (nd : node) : Prop :=
+  (n_committed nd = None -> commitments nd = []) /\ (length (commitments nd) <= 1)%nat /\
+  (n_endorsed nd = None -> endorsements false nd = []) /\ (length (endorsements false nd) <= 1)%nat /\
+  (n_endorsed_empty nd = None -> endorsements true nd = []) /\ (length (endorsements true nd) <= 1)%nat.
+
+Lemma J_ext nd nd' : jf nd' = jf nd -> J nd -> J nd'.
+Proof.
+  unfold jf, J, commitments, endorsements. intro E. inversion E as [[E1 E2 E3 E4]].
+  rewrite E1, E2, E3, E4. tauto.
+Qed.
+
+Lemma J_node0 : J node0.
+Proof. unfold J; cbn. repeat split; auto. Qed.
+
+Section LocalRules.
+  Variable P : params.
+  Variable self : N.
+
+  Lemma filter_snoc {A} (f : A -> bool) l x : filter f (l ++ [x]) = filter f l ++ (if f x then [x] else []).
+  Proof. rewrite filter_app. cbn [filter]. destruct (f x); reflexivity. Qed.
+
+  Lemma J_emit_endorse nd1 p k (fe : bool) m bc :
+    J nd1 -> (if fe then n_endorsed_empty nd1 else n_endorsed nd1) = Some (p, k) ->
+    endorsements fe nd1 = [] ->
+    J (emit nd1 SEndorse (mkBlk p k fe) m bc).
+  Proof.
+    intros (c1 & c2 & e1 & e2 & f1 & f2) Hm Hz.
+    assert (G : J (upd_signed nd1 (n_signed nd1 ++ [(SEndorse, mkBlk p k fe)]))).
+    { unfold J, commitments, endorsements in *. cbn [upd_signed n_committed n_endorsed n_endorsed_empty n_signed].
+      rewrite !filter_snoc. cbn [fst snd b_empty]. rewrite !app_nil_r.
+      destruct fe; cbn [eqb] in *.
+      - rewrite Hz. rewrite app_nil_r. repeat split; try assumption; try (rewrite Hm; discriminate).
+        cbn. auto.
+      - rewrite Hz. rewrite app_nil_r. repeat split; try assumption; try (rewrite Hm; discriminate).
+        cbn. auto. }
+    eapply J_ext; [|exact G]. unfold emit. destruct bc; reflexivity.
+  Qed.
+
+  Lemma J_endorse_block nd p k fe : J nd -> J (fst (endorse_block P self nd p k fe)).
+  Proof.
+    intro HJ. unfold endorse_block. destruct (p =? self); [exact HJ|].
+    destruct (_ || _) eqn:Eg; [exact HJ|].
+    set (fe' := if negb fe && endorse_failed (pool nd) (P_c P) then true else fe).
+    destruct (set_proposal_endorsed nd p k fe') as [nd1|] eqn:E; [|exact HJ]. cbn [fst].
+    apply orb_false_iff in Eg. destruct Eg as [Eg1 Eg2].
+    assert (Hnone : if fe' then n_endorsed_empty nd = None else n_endorsed nd = None /\ n_endorsed_empty nd = None).
+    { unfold fe'. destruct fe; cbn [negb andb] in *.
+      - unfold endorsed_for_empty in Eg2. destruct (n_endorsed_empty nd); [discriminate|reflexivity].
+      - unfold endorsed_for_block in Eg1. apply orb_false_iff in Eg1. destruct Eg1 as [A B].
+        destruct (n_endorsed nd); [discriminate|]. destruct (n_endorsed_empty nd); [discriminate|].
+        destruct (endorse_failed _ _); [reflexivity|split; reflexivity]. }
+    unfold set_proposal_endorsed in E. destruct (negb (has_cand nd)); [discriminate|].
+    destruct HJ as (c1 & c2 & e1 & e2 & f1 & f2).
+    destruct fe'; cbn [negb] in E.
+    - rewrite Hnone in E. inversion E; subst nd1.
+      apply J_emit_endorse; [|reflexivity|apply f1; exact Hnone].
+      unfold J, commitments, endorsements in *. cbn [upd_endorsed_empty n_committed n_endorsed n_endorsed_empty n_signed].
+      repeat split; try assumption. discriminate.
+    - destruct Hnone as [Hn1 Hn2]. rewrite Hn1 in E. inversion E; subst nd1.
+      apply J_emit_endorse; [|reflexivity|apply e1; exact Hn1].
+      unfold J, commitments, endorsements in *. cbn [upd_endorsed n_committed n_endorsed n_endorsed_empty n_signed].
+      repeat split; try assumption. discriminate.
+  Qed.
+
+  Lemma J_commit_block nd p k fe : J nd -> J (fst (commit_block P self nd p k fe)).
+  Proof.
+    intro HJ. unfold commit_block. destruct (p =? self); [exact HJ|].
+    destruct (committed_for_block nd) eqn:Ec; [exact HJ|].
+    destruct (set_proposal_committed nd p k fe) as [nd1|] eqn:E; [|exact HJ]. cbn [fst].
+    apply spc_some in E. subst nd1.
+    unfold committed_for_block in Ec. destruct (n_committed nd) eqn:En; [discriminate|].
+    destruct HJ as (c1 & c2 & e1 & e2 & f1 & f2).
+    assert (G : J (upd_signed (upd_committed nd (Some (p, k, fe)))
+                     (n_signed (upd_committed nd (Some (p, k, fe))) ++ [(SCommit, mkBlk p k fe)]))).
+    { unfold J, commitments, endorsements in *.
+      cbn [upd_signed upd_committed n_committed n_endorsed n_endorsed_empty n_signed].
+      rewrite !filter_snoc. cbn [fst snd]. rewrite !app_nil_r. rewrite (c1 En).
+      repeat split; try assumption; try discriminate. cbn. auto. }
+    eapply J_ext; [|exact G]. unfold emit. destruct (fe || isC P self); reflexivity.
+  Qed.
+
+  Lemma J_process_msg nd ord m : J nd -> J (fst (process_msg P self ord nd m)).
+  Proof.
+    intro HJ. unfold process_msg. destruct (is_some (n_sealed nd)); [exact HJ|].
+    set (nd1 := upd_ops nd (n_ops nd ++ [to_op m])).
+    assert (H1 : J nd1) by (eapply J_ext; [|exact HJ]; reflexivity).
+    destruct m as [p k signer|en p e h s|cm0 p e h s ends].
+    - destruct (snd (receive _ _)); try exact H1;
+        (destruct (is_leader P p); [|exact H1]; destruct (isE P self); [|exact H1]; apply J_endorse_block; exact H1).
+    - destruct (committed_for_block nd1); [exact H1|]. destruct (isE P en); [|exact H1].
+      destruct (endorse_done ord (pool nd1) (P_c P)) as [[pr fe] [|]]; [|exact H1].
+      destruct (find_proposal nd1 pr) as [k'|]; [|exact H1].
+      destruct (isC P self); [apply J_commit_block; exact H1|exact H1].
+    - destruct (snd (receive _ _)); try exact H1;
+        (destruct (commit_done (isE P) ord (pool nd1) (P_c P) (P_n P)) as [[pr fe] [|]]; [|exact H1];
+         set (nd2 := upd_commit_done nd1 true);
+         assert (H2 : J nd2) by (eapply J_ext; [|exact H1]; reflexivity);
+         destruct (find_proposal nd2 pr) as [k'|]; [|exact H2];
+         destruct (isC P self);
+         [ pose proof (J_commit_block nd2 pr k' fe H2) as H3;
+           destruct (commit_block P self nd2 pr k' fe) as [nd3 outs]; cbn [fst] in *;
+           eapply J_ext; [|exact H3]; reflexivity
+         | cbn [fst]; eapply J_ext; [|exact H2]; reflexivity ]).
+  Qed.
+
+  Lemma J_on_timer nd ord t : J nd -> J (fst (on_timer P self ord nd t)).
+  Proof.
+    intro HJ. unfold on_timer. destruct (is_some (n_sealed nd)); [exact HJ|]. destruct t.
+    - destruct (endorsed_for_block nd); [exact HJ|]. destruct (highest_rank _ _ _) as [q|]; [|exact HJ].
+      destruct (is_leader P (pp_proposer q)); [exact HJ|]. cbn [fst]. eapply J_ext; [|exact HJ]; reflexivity.
+    - destruct (committed_for_block nd); [exact HJ|].
+      destruct (endorse_done ord (pool nd) (P_c P)) as [[pr fe] [|]].
+      + destruct (find_proposal nd pr); [apply J_commit_block; exact HJ|exact HJ].
+      + destruct (endorsed_for_empty nd); [exact HJ|].
+        destruct (highest_rank _ _ _) as [q|]; [apply J_endorse_block; exact HJ|exact HJ].
+    - destruct (committed_for_block nd); [exact HJ|].
+      destruct (endorse_done ord (pool nd) (P_c P)) as [[pr fe] [|]]; [|exact HJ].
+      destruct (find_proposal nd pr); [apply J_commit_block; exact HJ|exact HJ].
+    - destruct (n_commit_done nd); [exact HJ|].
+      destruct (commit_done (isE P) ord (pool nd) (P_c P) (P_n P)) as [[pr fe] [|]]; [|exact HJ].
+      destruct (find_proposal _ pr); cbn [fst]; (eapply J_ext; [|exact HJ]; reflexivity).
+  Qed.
+
+  Lemma J_local_step nd ev : J nd -> J (fst (local_step P self nd ev)).
+  Proof.
+    intro HJ. destruct ev as [from m fresh|ord| |t ord|]; cbn [local_step].
+    - cbn [fst]. unfold deliver. destruct (is_some (n_sealed nd)); [exact HJ|].
+      destruct (negb _); [exact HJ|]. destruct (_ && _); [exact HJ|]. eapply J_ext; [|exact HJ]; reflexivity.
+    - destruct (n_q nd) as [|m r]; [exact HJ|]. apply J_process_msg. eapply J_ext; [|exact HJ]; reflexivity.
+    - destruct (n_actions nd) as [|a r]; [exact HJ|].
+      assert (H0 : J (upd_actions nd r)) by (eapply J_ext; [|exact HJ]; reflexivity).
+      destruct a as [p k e|p k e]; cbn [do_action].
+      + destruct (is_some (n_sealed (upd_actions nd r))); [exact H0|].
+        unfold set_block_sealed. destruct (n_sealed (upd_actions nd r)) as [b|].
+        * destruct (b_proposer b =? p); exact H0.
+        * cbn [fst]. eapply J_ext; [|exact H0]; reflexivity.
+      + destruct (is_some (n_sealed (upd_actions nd r))); [exact H0|]. apply J_endorse_block; exact H0.
+    - apply J_on_timer; exact HJ.
+    - unfold propose. destruct (is_some (n_sealed nd)); [exact HJ|]. destruct (existsb _ _); [exact HJ|].
+      cbn [fst]. destruct HJ as (c1 & c2 & e1 & e2 & f1 & f2).
+      unfold J, commitments, endorsements in *.
+      cbn [upd_seen upd_signed upd_q upd_msgs n_committed n_endorsed n_endorsed_empty n_signed].
+      rewrite !filter_app. cbn [filter fst]. rewrite !app_nil_r. tauto.
+  Qed.
+
+  (** a seal is final for every local event *)
+  Lemma sealed_final nd ev b : n_sealed nd = Some b -> n_sealed (fst (local_step P self nd ev)) = Some b.
+  Proof.
+    intro Hs. destruct ev as [from m fresh|ord| |t ord|]; cbn [local_step].
+    - cbn [fst]. unfold deliver. rewrite Hs. cbn [is_some]. exact Hs.
+    - destruct (n_q nd) as [|m r]; [exact Hs|]. unfold process_msg. cbn [upd_q n_sealed]. rewrite Hs.
+      cbn [is_some fst upd_q n_sealed]. exact Hs.
+    - destruct (n_actions nd) as [|a r]; [exact Hs|].
+      destruct a; cbn [do_action upd_actions n_sealed]; rewrite Hs; cbn [is_some fst upd_actions n_sealed]; exact Hs.
+    - unfold on_timer. rewrite Hs. cbn [is_some fst]. exact Hs.
+    - unfold propose. rewrite Hs. cbn [is_some fst]. exact Hs.
+  Qed.
+End LocalRules.
+
+Lemma J_reachable P cfg : reachable P cfg -> forall a, J (node_of cfg a).
+Proof.
+  induction 1 as [|cfg e cfg' _ IH Hs]; intro a; [apply J_node0|].
+  destruct e as [b ev|pk]; cbn [step] in Hs.
+  - destruct (honestb P b && lev_ok (c_net cfg) ev); [|discriminate].
+    destruct (local_step P b (node_of cfg b) ev) as [nd' outs] eqn:El. inversion Hs; subst cfg'.
+    destruct (N.eq_dec a b) as [->|Hne].
+    + rewrite node_of_same. pose proof (J_local_step P b (node_of cfg b) ev (IH b)) as H. rewrite El in H. exact H.
+    + rewrite node_of_other by exact Hne. apply IH.
+  - destruct (byz_ok P (c_net cfg) pk); [|discriminate]. inversion Hs; subst cfg'. apply IH.
+Qed.
+
+Lemma sealed_final_step P cfg e cfg' a b :
+  step P cfg e = Some cfg' -> n_sealed (node_of cfg a) = Some b -> n_sealed (node_of cfg' a) = Some b.
+Proof.
+  intros Hs Hb. destruct e as [c ev|pk]; cbn [step] in Hs.
+  - destruct (honestb P c && lev_ok (c_net cfg) ev); [|discriminate].
+    destruct (local_step P c (node_of cfg c) ev) as [nd' outs] eqn:El. inversion Hs; subst cfg'.
+    destruct (N.eq_dec a c) as [->|Hne].
+    + rewrite node_of_same. pose proof (sealed_final P c (node_of cfg c) ev b Hb) as H. rewrite El in H. exact H.
+    + rewrite node_of_other by exact Hne. exact Hb.
+  - destruct (byz_ok P (c_net cfg) pk); [|discriminate]. inversion Hs; subst cfg'. exact Hb.
+Qed.
+
+(** the pool side: one non-empty endorsement per (endorser, proposer); an empty one is sticky *)
+Lemma pool_one_endorsement ops e l (q : N) :
+  aget e (c_esigs (run_ops ops cand_empty)) = Some l ->
+  (length (filter (fun s => negb (es_empty s) && (es_proposer s =? q)%N) l) <= 1)%nat.
+Proof. intro H. exact (run_ops_shape ops e l H q). Qed.
+
+Lemma empty_endorsement_sticky e s es l :
+  aget e es = Some l -> existsb es_empty l = true -> add_endorsement e s false es = es.
+Proof. intros H1 H2. unfold add_endorsement. rewrite H1, H2. reflexivity. Qed.
+
+(** * A clean round (non-vacuity of the partial theorem): N = 4, nobody faulty, the leader's
+    proposal is endorsed and committed by 1 and 2, both seal it, all five side conditions hold. *)
+Definition sched_clean : list event :=
+  [ EvLocal 0 LPropose; EvLocal 0 (LProc o4);
+    EvLocal 1 (LNet 0 (MProposal 0 0 0) false); EvLocal 1 (LProc o4); EvLocal 1 (LProc o4); EvLocal 1 (LProc o4);
+    EvLocal 2 (LNet 0 (MProposal 0 0 0) false); EvLocal 2 (LProc o4); EvLocal 2 (LProc o4); EvLocal 2 (LProc o4);
+    EvLocal 1 (LNet 2 (MCommit 2 0 false X0 (2, X0) [(2, (2, X0))]) false); EvLocal 1 (LProc o4); EvLocal 1 LAct;
+    EvLocal 2 (LNet 1 (MCommit 1 0 false X0 (1, X0) [(1, (1, X0))]) false); EvLocal 2 (LProc o4); EvLocal 2 LAct ].
+
+Definition cfg_clean : config := match run (P4 []) cfg0 sched_clean with Some c => c | None => cfg0 end.
+
+Lemma clean_round :
+  run (P4 []) cfg0 sched_clean = Some cfg_clean /\ hyp_allb (P4 []) cfg_clean = true /\
+  n_sealed (node_of cfg_clean 1) = Some X0 /\ n_sealed (node_of cfg_clean 2) = Some X0.
+Proof. vm_compute. repeat split; reflexivity. Qed.
